@@ -663,7 +663,7 @@ func TestCheck(t *testing.T) {
 				}
 			})
 		}
-		run("view_ops_vs_model", c.N(2500, 25000), false)
-		run("bilevel_binarisation", c.N(1200, 12000), true)
+		run("view_ops_vs_model", c.N(2500, 80000), false)
+		run("bilevel_binarisation", c.N(1200, 40000), true)
 	})
 }
